@@ -352,7 +352,17 @@ def case_fixed(case):
     # a triple eigenvalue (parabolic) is only resolved to eps^(1/3) ~ 6e-6 by any eigen-solver
     ftol = 1e-3 if kind == "parabolic" else 1e-6
     if kind == "rotation":
-        fkey = "fixed_point/elliptic/dim>=3-degenerate-eigenspace" if n >= 3 else "fixed_point/elliptic/dim2"
+        fkey = "fixed_point/elliptic/dim2"
+        if n >= 3:
+            # The known finding (F12) is specifically: the basis LAPACK returns for the (>=2-dimensional)
+            # 1-eigenspace contains no timelike vector.  Decide that independently, so that any OTHER
+            # failure on rotations of H^n, n >= 3, keeps its own key.
+            Mt = np.asarray(iso.proj_data, dtype=float).T
+            w, V = np.linalg.eig(Mt)
+            ones = [i for i in range(len(w)) if abs(w[i] - 1.0) < 1e-6]
+            has_timelike = any(float(_qnorm(np.real(V[:, i]))) < -1e-6 for i in ones if np.max(np.abs(np.imag(V[:, i]))) < 1e-9)
+            fkey = ("fixed_point/elliptic/dim>=3" if has_timelike
+                    else "fixed_point/elliptic/dim>=3-degenerate-eigenspace")
     else:
         fkey = "fixed_point/%s" % kind
 
@@ -491,6 +501,54 @@ def fixed_cases(q, seed):
                 yield {"n": n, "g": g, "kind": kind, "param": param, "probe": P[(i + 3) % len(P)]}
 
 
+# ------------------------------------------------------------------------------------------
+# composite isometries: fixed points of an array of isometries = fixed points of its units
+# ------------------------------------------------------------------------------------------
+def case_fixed_composite(case):
+    from geometry_tools import hyperbolic as H
+    n, items, shape = case["n"], case["items"], case["shape"]
+    isos = [_conj(H, n, it["g"], _standard(H, n, it["kind"], it["param"])) for it in items]
+    mats = np.array([np.asarray(i.proj_data, dtype=float) for i in isos])
+    comp = H.Isometry(mats.reshape(tuple(shape) + (n + 1, n + 1)).copy())
+    v, t = [], 2
+    fp = np.asarray(comp.fixed_point().proj_data, dtype=float).reshape(len(items), n + 1)
+    pair = np.asarray(comp.fixed_point_pair().proj_data, dtype=float).reshape(len(items), 2, n + 1)
+    for i, (it, iso) in enumerate(zip(items, isos)):
+        one = np.asarray(iso.fixed_point().proj_data, dtype=float)
+        p1 = np.asarray(iso.fixed_point_pair().proj_data, dtype=float)
+        t += 2
+        kind = it["kind"]
+        # only units whose single-object answer is itself sound are compared (the single-object
+        # section decides those; F12 cases are excluded here, not re-reported)
+        img = np.asarray((iso @ H.Point(one.copy())).proj_data, dtype=float)
+        if not float(hyp.proj_sin_err(img, one)) <= 1e-6:
+            continue
+        e = float(hyp.proj_sin_err(fp[i], one))
+        if not e <= 1e-6:
+            v.append(_V("fixed_point/composite/%s" % kind, "Isometry array of shape %s, unit %d (%s %s conjugated by origin_to(%s)) in H^%d: fixed_point()[i] = %s, single isometry gives %s"
+                        % (tuple(shape), i, kind, it["param"], _f(it["g"]), n, _f(fp[i]), _f(one))))
+        if kind == "loxodromic":
+            e2 = float(np.max(hyp.proj_sin_err(pair[i], p1)))
+            if not e2 <= 1e-6:
+                v.append(_V("fixed_point_pair/composite/loxodromic", "Isometry array of shape %s, unit %d in H^%d: fixed_point_pair()[i] = %s, single isometry gives %s"
+                            % (tuple(shape), i, n, _f(pair[i]), _f(p1))))
+    return {"v": v, "t": t, "o": "%d|%s|%d" % (n, tuple(shape), len(v)), "nt": len(items) > 1}
+
+
+def fixed_composite_cases(q, seed):
+    for n in (2, 3, 4):
+        allc = list(c for c in fixed_cases(q, seed) if c["n"] == n and c["kind"] != "parabolic")
+        for (size, shape) in ((5, [5]), (6, [2, 3]), (1, [1])):
+            blocks = [allc[i:i + size] for i in range(0, len(allc) - size + 1, size)]
+            # interleave kinds so that eigen-orders differ inside one array
+            for blk in blocks[::3 if q else 1]:
+                yield {"n": n, "shape": shape, "items": [{"g": c["g"], "kind": c["kind"], "param": c["param"]} for c in blk]}
+        # arrays that mix far-apart cases
+        mixed = allc[::7]
+        for i in range(0, len(mixed) - 4, 4):
+            yield {"n": n, "shape": [4], "items": [{"g": c["g"], "kind": c["kind"], "param": c["param"]} for c in mixed[i:i + 4]]}
+
+
 def _tri(p, q, r):
     return [[1, p, r], [p, 1, q], [r, q, 1]]
 
@@ -552,5 +610,8 @@ def run(ctx):
         ctx.product("coxeter-reflections", "checks.c15:case_coxeter", list(coxeter_cases(q)), chunk=2,
                     domains={"triangle groups": "quick: 7 triples, all orders; thorough: all hyperbolic (p,q,r) with entries <= 8", "rank 4": "linear diagrams [3,5,3] [5,3,4] [4,3,5] [5,3,5]"})
     if want("fixed-points"):
+        ctx.product("fixed-points-composite", "checks.c15:case_fixed_composite", list(fixed_composite_cases(q, seed)), chunk=4,
+                    domains={"n": [2, 3, 4], "shapes": [[5], [2, 3], [1], [4]], "units": "consecutive and strided blocks of the fixed-points cases",
+                             "oracle": "the single-isometry answer (decided by section fixed-points)"})
         ctx.product("fixed-points", "checks.c15:case_fixed", list(fixed_cases(q, seed)), chunk=16,
                     domains={"n": [2, 3, 4], "conjugators": "origin_to of P_n", "angles": ANGLES, "multipliers": LOX, "parabolic": "sl2_iso([[1,1],[0,1]]) (n=2)"})
